@@ -12,6 +12,7 @@ from props import binder
 from props import visitlib as vl
 
 PID = "C17"
+TABLES = ["RC"]
 ROOT_RE = re.compile(r"^\*?([^.\[\(]*)")
 
 WITNESSES = '''
@@ -209,6 +210,7 @@ def run(tier, seed, build):
     wit_names = [l.split("(")[0][4:] for l in WITNESSES.splitlines() if l.startswith("def ")]
     cases = vl.run_batch(rng, n_modules, model, extra_sources=[(PREAMBLE + WITNESSES, wit_names)])
     cases += vl.run_file_batch(rng, n_modules // 3, model)
+    __import__("props.filestage").filestage.run_file_stage(res, random.Random(seed + 7017), 120 if tier == "quick" else 1500, model)
     trees = {}
     for c in cases:
         res.evaluations += 1
